@@ -6,6 +6,7 @@ import BorshModel.Lemmas.Totality
 import BorshModel.Lemmas.MaxSound
 import BorshModel.Lemmas.MaxTight
 import BorshModel.Lemmas.Describes
+import BorshModel.Lemmas.SchemaCoherentMain
 import BorshModel.Theorems.C01
 namespace Borsh
 
@@ -134,6 +135,16 @@ theorem C09_sound_types (c : Container) (t : Ty) (hs : shapeOk t = true) (hw : W
   have h1 := hf f (Nat.le_refl f) v [] hv hok
   have : c.describes bs := ⟨f, by rw [hd, ← hbs]; simpa using h1⟩
   exact C09_sound_container c n bs hm this
+
+/-- **`max_serialized_size::<T>()` is sound for every name-coherent Rust type**, derived structs and
+enums included: whatever maximum is reported for the container `for_type::<T>` generates, no value of
+`T` serializes to more bytes (end to end: `schemaOf`, `maxSerializedSize`, `toVec`). -/
+theorem C09_sound_rust_types (t : Ty) (hc : coherentB t = true) (hs : shapeOk t = true)
+    (hw : WfTy t = true) (c : Container) (h : schemaOf t = .ok c) (n : Nat)
+    (hm : c.maxSerializedSize = .ok n) (v : Val) (bs : Bytes) (hv : HasTy t v = true)
+    (he : toVec t v = .ok bs) : bs.length ≤ n := by
+  obtain ⟨hb, hd⟩ := schemaOf_bnd t c (coherentB_sound t hc) h
+  exact C09_sound_types c t hs hw hb hd n hm v bs hv he
 
 /-- non-vacuity: the container of `Vec<Option<u16>>`-like shape with a bounded range reports 4 + 3·3
 and a described string of that length exists -/
